@@ -38,9 +38,9 @@ func c08RI(r *ResolveInfo) string {
 
 type c08StubConn struct{}
 
-func (c08StubConn) ReadFrom(b []byte) (int, *AddrEx, error)      { return 0, nil, errors.New("c08 stub") }
+func (c08StubConn) ReadFrom(b []byte) (int, *AddrEx, error)     { return 0, nil, errors.New("c08 stub") }
 func (c08StubConn) WriteTo(b []byte, addr *AddrEx) (int, error) { return len(b), nil }
-func (c08StubConn) Close() error                                  { return nil }
+func (c08StubConn) Close() error                                { return nil }
 
 // c08StubOB records what reaches it. refuse=true: an outbound that does not do UDP at all
 // (refuses on both paths, like the real HTTP outbound).
